@@ -29,7 +29,9 @@ fn check(ctx: &mut Ctx, ty: &str, vals: &[u64], got: Result<Version, crate::obse
     let parsed = match guarded(|| Version::parse(&text)) {
         Ok(Ok(p)) => p,
         _ => {
-            ctx.inconclusive("Version::parse of the dotted string failed (C05's subject)");
+            // every value here is within MAX_SAFE_INTEGER, so the dotted string is a canonical
+            // version: if parsing it fails, the conversion and the parse cannot be equal
+            ctx.violation(&format!("{}/{}/parse-rejects-dotted-string", ty, arity), w, format!("Version::parse({:?}) fails although From<{}> builds that version", text, ty));
             return;
         }
     };
